@@ -450,6 +450,10 @@ def corpus():
         out.append(merge_case(cmd, B3, T3, B3, rename="d/f", then="revert_f"))
     out.append(merge_case("pull", B3, T3, [b"line 1\n", b"line 2\n", b"line 3 theirs\n"], rename="g", then="revert"))
     out.append(merge_case("update", B3, T3, [b"line 1\n", b"line 2\n", b"line 3 theirs\n"], then="revert"))
+    # both sides add the same text under different file ids: "f" is OTHER's file (written by the merge), the local one
+    # is f.moved
+    out.append(merge_case("switch", None, [b"c\n", b"b\n"], [b"c\n", b"b\n"], sid=False))
+    out.append(merge_case("pull", None, [b"c\n", b"b\n"], [b"c\n", b"b\n"], sid=False, then="revert"))
     # switch --store sequences: round trip; refused because the branch already holds stored changes
     out.append(store_case([["edit", "f", b"one\n"], ["switch", True, True], ["switch", False, True]]))
     out.append(store_case([["edit", "f", b"one\n"], ["switch", True, True], ["switch", False, False],
@@ -779,7 +783,9 @@ def _impl_merge(inp):
     with wt.lock_read():
         mm1 = sorted(wt.merge_modified())
         try:
-            fpath = wt.id2path(b"f-id")
+            # the path of the LOCAL file's id (a file added locally under an id of its own keeps that id; "f-id" is
+            # then OTHER's new file, which the merge does write)
+            fpath = wt.id2path(b"f-id" if (inp["base"] is not None or inp["sid"]) else b"f-mine-id")
         except Exception as e:
             if type(e).__name__ != "NoSuchId":
                 raise
